@@ -106,3 +106,12 @@ META["C03"] = {
     "note": "Only the named windows are forced; quiescence is a sentinel write with a 10 s bound (non-delivery of the sentinel is reported as a lost commit); lossy single-item streams are judged by sentinel arrival; PullID views are polled to convergence.",
     "technique": "hook-forced interleaving generation (rapid) + goroutine stress; oracle = event fold vs store state at sentinel-decided quiescence",
 }
+META["C10"] = {
+    "text": ("Generated shutdown scenarios with cancel injection: on a raw Bus (0-8 listeners, 1-8 tagged sends) and on Value/Collection resources (0-6 Pull/PullID subscriptions with mixed options, "
+             "1-10 writes/deletes) rapid places cancels and new subscriptions inline at every hook point of Send, Listen and the write/subscribe paths, plus consumers that stop receiving and cancel "
+             "later, and goroutine stress variants with timed cancels. Oracle: each cancelled subscription's channel is observed closed within a bound, no panic, writers never stalled beyond the cancel, "
+             "PullID ends when its item is removed, listeners live for a whole send receive it exactly once in per-sender order and nothing after close, and the number of goroutines in "
+             "internal/minibus and pkg/resource frames returns to zero after every case."),
+    "note": "Goroutine accounting uses runtime.Stack frame matching; waits are bounded (10 s close, 4 s write); for lossy PullID the end-on-remove clause is required only when the subscriber had seen the item and it stays removed (merging may turn remove+re-add into a replace).",
+    "technique": "hook-forced cancel/subscribe injection (rapid) + goroutine stress; oracles: close observed, exactly-once per-sender order, goroutine baseline",
+}
